@@ -8,6 +8,6 @@ PROPS = {
         assumptions=[],
         level_text="todo",
         level_note="todo",
-        tests=[dict(unit="c02node", test="TestVerifC02Loop", quick=160, thorough=5000)],
+        tests=[dict(unit="c02node", test="TestVerifC02Loop", quick=160, thorough=5000, env={"VERIF_PENDING_KNOWN": "C02-v4-not-on-v6-eni"})],
     ),
 }
